@@ -188,7 +188,15 @@ def run(job, seed):
                 dep = P.DeprecatedRule(
                     old, O, deprecated_reason='because' if noise else 'r',
                     deprecated_since='Z' if noise else '1.0')
-                defs = [P.RuleDefault(new1, N, deprecated_rule=dep)]
+                if loc == 'dir' and not two:
+                    # the renamed policy is by now ALSO scheduled for removal
+                    # itself; until it is removed the table applies to it
+                    defs = [P.RuleDefault(
+                        new1, N, deprecated_rule=dep,
+                        deprecated_for_removal=True, deprecated_reason='x',
+                        deprecated_since='2.0')]
+                else:
+                    defs = [P.RuleDefault(new1, N, deprecated_rule=dep)]
                 if two == 'sibling':
                     # the predecessor's own name stays registered (same-name
                     # deprecation) next to the renamed policy
